@@ -64,7 +64,7 @@ class Forcing:
             if "int" in op:
                 return C(op["int"])
             if "promoted" in op:
-                pb = self.b.prog.promoted_body(self.b, op["promoted"])
+                pb = self.b.prog.promoted_body(self.b, op["promoted"], op.get("promoted_owner"))
                 if pb is not None:
                     pv = pb.promoted_value()
                     if pv[0] == "const" and isinstance(pv[2], int):
